@@ -119,6 +119,22 @@ def check_sumrule(case):
                                                f"(tolerance {atol:.2e})")
     if np.max(np.abs(ahc[0])) > 0:
         raise Violation("ahc-below-all-bands", f"AHC with no occupied band = {ahc[0].tolist()}")
+    # the sum rule does not depend on how bands are grouped: scan that STARTS inside a (threshold-merged or Kramers)
+    # group of two bands and ends above all bands
+    if nw >= 2:
+        ib = case["rs"] % (nw - 1)
+        mid = 0.5 * (E_own[ib] + E_own[ib + 1])
+        Ef2 = np.array([mid, E_own[-1] + off + 0.113])
+        variants = {"thresh": dict(degen_thresh=1.5 * float(E_own[ib + 1] - E_own[ib]))}
+        if nw % 2 == 0 and ib % 2 == 0:
+            variants["kramers"] = dict(degen_Kramers=True)
+        res2 = wb.evaluate_k(system, k=k, return_single_as_dict=True, calculators={
+            name: AHC(Efermi=Ef2, kwargs_formula={"external_terms": False}, **kw) for name, kw in variants.items()})
+        for name in variants:
+            top = np.array(res2[name].data, dtype=float)[-1]
+            if np.max(np.abs(top)) > atol:
+                raise Violation("ahc-above-all-bands-grouped", f"{name}: AHC above all bands = {top.tolist()} when the scan "
+                                                               f"starts inside the group of bands {ib},{ib + 1} (tolerance {atol:.2e})")
     njudged = 0
     for ief, Ef in enumerate(Efermi):
         if np.min(np.abs(E_own - Ef)) < 2.5e-4:
@@ -355,13 +371,13 @@ def build_chern_model(case):
     return system, table, L, info
 
 
-def run_ahc(system, Efermi):
+def run_ahc(system, Efermi, niter=0):
     import wannierberri as wb
     from wannierberri.calculators.static import AHC
     grid = wb.Grid(system, NK=[NMESH, NMESH, 1])
     with scratch_dir() as d:
         res = wb.run(system, grid, calculators={"ahc": AHC(Efermi=np.array(Efermi), kwargs_formula={"external_terms": False})},
-                     adpt_num_iter=0, parallel=False, use_irred_kpt=False, symmetrize=False, restart=False,
+                     adpt_num_iter=niter, parallel=False, use_irred_kpt=False, symmetrize=False, restart=False,
                      fout_name=os.path.join(d, "c27"), file_Klist_path=os.path.join(d, "klist"),
                      print_progress_step_time=1e9)
         data = np.array(res.results["ahc"].data, dtype=float)
@@ -386,7 +402,8 @@ def check_chern(case):
     B = 2 * np.pi * np.linalg.inv(L).T
     orient = np.sign(np.cross(B[0], B[1])[2])
     Cz = int(round(C_red)) * int(orient)
-    ahc, dense = run_ahc(system, [Ef, Emax + 1.0 + 0.5 * (Emax - Ef)])
+    # every third case refines the grid twice (no symmetry): refinement must not spoil the quantisation
+    ahc, dense = run_ahc(system, [Ef, Emax + 1.0 + 0.5 * (Emax - Ef)], niter=2 if case["rs"] % 3 == 0 else 0)
     if min(dense[:2]) < NMESH - 8:
         raise RuntimeError(f"grid became {dense}")
     e, hbar, h, angstrom = _constants()
